@@ -49,7 +49,7 @@ TOKS = [(t, c, e) for t in ("null", "-", "20", "61") for c in ("null", "23") for
 
 
 def corpus(chk):
-    return gen.corpus(id)
+    return [(n, sc) for n, sc in gen.corpus(id) if not (sc and sc[0].startswith("xm "))]
 
 
 def compositions(n):
@@ -142,6 +142,56 @@ def scan_group(frags):
     return ops
 
 
+def pieces(total, step):
+    """sizes of `total` bytes cut into parts of `step` (at most 60 parts), an empty part in the middle"""
+    out = []
+    while total > 0 and len(out) < 59:
+        out.append(min(step, total))
+        total -= out[-1]
+    if total:
+        out.append(total)
+    if len(out) > 2:
+        out.insert(len(out) // 2, 0)
+    return out
+
+
+def big_lines(mode, prefix="m"):
+    def ln(seed, kind, sizes, n1=0, n2=0):
+        return "%s big %s %d %d %s %d %d" % (prefix, mode, seed, kind, ",".join(map(str, sizes)), n1, n2)
+    return ln
+
+
+def big_scripts(tier):
+    out = []
+    thorough = tier != "quick"
+    # one part of every length around the queue steps, contiguous and cut, on a fresh stream
+    lens = [1, 255, 256, 257, 258, 511, 512, 513, 514, 700, 769, 1025, 4000] + ([5000, 20000, 70000, 150000] if thorough else [])
+    for mode in ("sbuf", "scobs"):
+        ln = big_lines(mode)
+        for kind in (0, 1, 2):
+            ops = ["m frags 61"]
+            for L in lens:
+                ops.append(ln(L % 17, kind, [L]))
+                for st in (1, 7, 100, 256, 300, 900):
+                    if L > st and (st > 1 or L <= 60):
+                        ops.append(ln(L % 17, kind, pieces(L, st)))
+            ops += [ln(3, kind, [100, 0, 256, 300, 44]), ln(4, kind, [0, 1, 513, 1, 0]), ln(5, kind, [200, 258, 300, 512, 513]), "m len"]
+            out.append(("big:%s/%d" % (mode, kind), ops))
+        # a message in progress behind a flushed one: first message n1 bytes, n2 bytes of the second, flush, remainder
+        for n1, n2 in ((100, 10), (5, 10), (180, 10), (100, 1), (246, 3), (0, 10), (100, 0)):
+            for kind in (0, 1):
+                ops = ["m frags 61"]
+                rems = list(range(136, 160)) + [8, 100, 200, 246, 247, 300, 700] + ([2000, 30000] if thorough else [])
+                for rem in rems:
+                    ops.append(ln(rem % 13, kind, [rem], n1, n2))
+                    if rem in (144, 145, 153, 154, 200, 300, 700, 2000):
+                        for st in (1, 33, 90, 256):
+                            if rem > st and (st > 1 or rem <= 60):
+                                ops.append(ln(rem % 13, kind, pieces(rem, st), n1, n2))
+                out.append(("big:%s/pre%d.%d/%d" % (mode, n1, n2, kind), ops))
+    return out
+
+
 def all_strings(n):
     return itertools.product(ALPHA, repeat=n)
 
@@ -230,6 +280,12 @@ def _scripts(tier, seed, scale=1):
                 for k in (1, 2, 3):
                     ops.append("m append %s nomem:%d" % (pre, k))
             out.append(("app:" + "x".join(map(str, combo)), ops))
+    # long generated messages (up to 150000 bytes) through mpt_stream_append on a buffered stream to a file: without
+    # encoder (write queue grown in steps of 256 bytes: a part longer than the free space + 256 takes three and more
+    # queue steps) and with the COBS encoder; with a finished first message, the start of the next one and a flush
+    # in between (unfinished bytes at a queue offset > 0, parts reaching the physical end of the ring)
+    for nm, ops in big_scripts(tier):
+        out.append((nm, ops))
     # every queue of capacity <= 4 (thorough 5) through mpt_message_get
     qtop = 4 if tier == "quick" else 5
     for mx in range(1, qtop + 1):
@@ -309,6 +365,10 @@ def crossed(op, ln):
     w = op.split()
     if len(w) < 2 or ln == "bad-op" or not ln.startswith("R "):
         return False
+    if w[1] == "big" and len(w) == 8:
+        # several non-empty parts, or one part that needs more than one queue step / encoder pass
+        sz = [int(x) for x in w[5].split(",") if x.isdigit()]
+        return len([x for x in sz if x]) >= 2 or max(sz + [0]) > 256
     f = _fields(ln)
     try:
         u0, ne = int(f["u0"]), int(f["ne0"])
@@ -361,3 +421,56 @@ def tally(chk, script, c_lines):
 def finding_key(script, res):
     op = (res.get("op") or "").split()
     return "%s:%s" % (res["kind"], op[1] if len(op) > 1 else "?")
+
+
+class _XX:
+    """second part: mpt::encode_array::push(const message &) (mpt++/array.cpp) through harness/drvxx_message.cpp: long
+    generated messages, contiguous and cut, pushed into a COBS / COBS-ZPE encoding array; the decoded message is compared"""
+    id = "C17"
+    area = "message"
+    driver = "drvxx_message"
+    cxx = True
+    fixed_lines = 1
+    link_extra = ["-fno-sanitize=vptr"]
+
+    @staticmethod
+    def corpus(chk):
+        return [(n, sc) for n, sc in gen.corpus(id) if sc and sc[0].startswith("xm ")]
+
+    @staticmethod
+    def scripts(tier, seed, scale=1):
+        out = []
+        thorough = tier != "quick"
+        # one push takes ceil(overhead / 128) + 1 encoder passes: lengths around 254 * 128 + 64 = 32576 need three
+        lens = [1, 10, 254, 255, 1000, 4096, 20000, 32575, 32576, 32577, 32700, 40000] + ([65000, 66000, 70000, 100000, 150000] if thorough else [])
+        for mode in ("epush", "ezpe"):
+            ln = big_lines(mode, "xm")
+            for kind in (0, 1, 2):
+                ops = []
+                for L in lens:
+                    ops.append(ln(L % 17, kind, [L]))
+                    for st in (77, 1000, 4096, 20000):
+                        if L > st and L / st < 60:
+                            ops.append(ln(L % 17, kind, pieces(L, st)))
+                ops += [ln(2, kind, [100, 32576, 5]), ln(2, kind, [0, 33000, 0, 33000])]
+                out.append(("xbig:%s/%d" % (mode, kind), ops))
+            # zero pairs straddling the cut (ZPE looks ahead inside one push only): every cut of short texts
+            for kind in (1, 2):
+                ops = []
+                for L in (5, 9, 16):
+                    for a in range(0, L + 1):
+                        for b in range(a, L + 1):
+                            ops.append(ln(kind, kind, [a, b - a, L - b]))
+                out.append(("xcut:%s/%d" % (mode, kind), ops))
+        out.append(("xbad", ["xm big epush 1 0 5 1 0", "xm big x 1 0 5 0 0", "xm big epush 1 3 5 0 0", "xm big epush 1 0 5, 0 0", "xm frags 61", "xm big epush 1 0 200000 0 0"]))
+        return out
+
+    @staticmethod
+    def nontrivial(script, c_lines):
+        return any(crossed(op, ln) for op, ln in zip(script, c_lines))
+
+    tally = staticmethod(lambda chk, script, c_lines: tally(chk, script, c_lines))
+    finding_key = staticmethod(lambda script, res: finding_key(script, res))
+
+
+extra_parts = [_XX]
